@@ -3,6 +3,10 @@ C16  Sub-domain extraction returns exactly the rows inside the region.
 -/
 import OsyrisModel
 import OsyrisProofs.C06
+import OsyrisProofs.C02
+import Mathlib.Tactic.Linarith
+import Mathlib.Tactic.FieldSimp
+import Mathlib.Tactic.Ring
 
 namespace Osyris.C16
 open Osyris Osyris.Subdomain
@@ -97,5 +101,169 @@ theorem C16_box_component (t h : Rat) :
 theorem C16_sphere_component (q R : Rat) :
     (decide (0 < R) && decide (q < R * R)) = true ↔ (0 < R ∧ q < R * R) := by
   simp
+
+/-! ### the region test in physical terms (unit conversion between positions, origin and sizes) -/
+
+theorem bshape_scalar (s : List Nat) : bshape s [] = some s := by
+  unfold bshape
+  cases h : s.reverse with
+  | nil => simp [bshapeRev, List.reverse_eq_nil_iff.mp h]
+  | cons x xs =>
+    simp only [List.reverse_nil, bshapeRev, Option.map_some]
+    rw [← h, List.reverse_reverse]
+
+theorem bidx_scalar (out : List Nat) (i : Nat) (h : out ≠ []) : bidx out [] i = 0 := by
+  unfold bidx
+  have : (([] : List Nat) == out) = false := by
+    cases out with
+    | nil => exact absurd rfl h
+    | cons x xs => rfl
+  simp [this, ravel, ravelAux]
+
+theorem bidx_self (out : List Nat) (i : Nat) : bidx out out i = i := by
+  unfold bidx; simp
+
+/-- **C16 (box test, one component, in physical terms)**: positions `p` (one row per cell, any unit of
+    length), the origin component `o` (0-d, its own unit) and the box size `sz` (0-d, its own unit).
+    The test the code evaluates on raw numbers — centre the positions on the origin converted to the
+    positions' unit, convert the size to that unit, compare with half of it — keeps row `i` exactly
+    when the *physical* offset lies within half the *physical* size. -/
+theorem C16_box_row_phys (T : Tables) (p o sz sz' d : ArrV) (same : Bool) (n : Nat)
+    (hp : p.shape = [n]) (ho : o.shape = [])
+    (hk : T.keeps d.dtype = true)
+    (hc1 : C02.Consistent o.unit p.unit) (hc2 : C02.Consistent sz.unit d.unit) (hf : 0 < p.unit.factor)
+    (hd : ArrV.binaryOp T .sub p o = .ok d) (hs : sz.to d.unit = .ok (sz', same))
+    (i : Nat) (hi : i < n) :
+    (decide (getR d.data i ≤ getR sz'.data 0 / 2) && decide (-(getR sz'.data 0 / 2) ≤ getR d.data i)) = true ↔
+      |getR p.phys i - getR o.phys 0| ≤ getR sz.phys 0 / 2 := by
+  obtain ⟨out, hout, hxs, hxu, hphys⟩ := C02.C02_add_sub T .sub (Or.inr rfl) p o d hk hc1 (ne_of_gt hf) hd
+  rw [hp, ho, bshape_scalar] at hout
+  cases hout
+  have hfd : d.unit.factor = p.unit.factor := by rw [hxu]
+  have hfd0 : d.unit.factor ≠ 0 := by rw [hfd]; exact ne_of_gt hf
+  -- physical offset of row i
+  have hsz1 : shapeSize [n] = n := by simp [shapeSize]
+  have hrow : getR d.phys i = getR p.phys i - getR o.phys 0 := by
+    have := congrArg (fun l => getR l i) hphys
+    simp only [hp, ho] at this
+    rw [this]
+    unfold bmap2 getR
+    simp [List.getD_eq_getElem?_getD, hsz1, hi, bidx_self, bidx_scalar [n] i (by simp), BinOp.fn]
+  have hdphys : getR d.phys i = getR d.data i * d.unit.factor := by
+    unfold ArrV.phys getR
+    simp only [List.getD_eq_getElem?_getD, List.getElem?_map]
+    cases d.data[i]? <;> simp
+  -- the converted size
+  obtain ⟨_, hdata, _, _, _⟩ := C02.to_spec sz sz' d.unit same hc2 hfd0 hs
+  have hh : getR sz'.data 0 * d.unit.factor = getR sz.phys 0 := by
+    rw [hdata]
+    unfold ArrV.phys getR U.ratio
+    simp only [List.getD_eq_getElem?_getD, List.getElem?_map]
+    cases sz.data[0]? with
+    | none => simp
+    | some v => simp; field_simp
+  have hfpos : 0 < d.unit.factor := by rw [hfd]; exact hf
+  rw [← hrow, hdphys, ← hh, abs_le]
+  simp only [Bool.and_eq_true, decide_eq_true_eq]
+  constructor
+  · rintro ⟨h1, h2⟩
+    constructor
+    · have := mul_le_mul_of_nonneg_right h2 (le_of_lt hfpos); linarith
+    · have := mul_le_mul_of_nonneg_right h1 (le_of_lt hfpos); linarith
+  · rintro ⟨h1, h2⟩
+    constructor
+    · by_contra hc
+      rw [not_le] at hc
+      have := mul_lt_mul_of_pos_right hc hfpos; linarith
+    · by_contra hc
+      rw [not_le] at hc
+      have := mul_lt_mul_of_pos_right hc hfpos; linarith
+
+/-- the fold of `normSq`: position `i` accumulates the squares of the components' entries -/
+theorem normSq_fold_get (cs : List ArrV) (i : Nat) : ∀ (acc : List Rat), i < acc.length →
+    (∀ c ∈ cs, i < c.data.length) →
+    getR (cs.foldl (fun acc c => List.zipWith (· + ·) acc (c.data.map fun t => t * t)) acc) i =
+      getR acc i + (cs.map fun c => getR c.data i * getR c.data i).sum := by
+  induction cs with
+  | nil => intro acc _ _; simp
+  | cons c cs ih =>
+    intro acc hacc hlen
+    have hc : i < c.data.length := hlen c (by simp)
+    simp only [List.foldl_cons, List.map_cons, List.sum_cons]
+    rw [ih _ (by simp [hacc, hc]) (fun c' hc' => hlen c' (by simp [hc']))]
+    have : getR (List.zipWith (· + ·) acc (c.data.map fun t => t * t)) i = getR acc i + getR c.data i * getR c.data i := by
+      unfold getR
+      simp [List.getD_eq_getElem?_getD, List.getElem?_zipWith, hacc, hc]
+    rw [this]; ring
+
+theorem normSq_get (v : VecV) (x : ArrV) (rest : List ArrV) (hv : v.comps = x :: rest) (i : Nat)
+    (hlen : ∀ c ∈ v.comps, i < c.data.length) :
+    getR v.normSq i = (v.comps.map fun c => getR c.data i * getR c.data i).sum := by
+  unfold VecV.normSq
+  rw [hv] at hlen ⊢
+  simp only [List.map_cons, List.sum_cons]
+  have hx : i < x.data.length := hlen x (by simp)
+  rw [normSq_fold_get rest i _ (by simp [hx]) (fun c hc => hlen c (by simp [hc]))]
+  congr 1
+  unfold getR
+  simp [List.getD_eq_getElem?_getD, hx]
+
+theorem phys_get (a : ArrV) (i : Nat) : getR a.phys i = getR a.data i * a.unit.factor := by
+  unfold ArrV.phys getR
+  simp only [List.getD_eq_getElem?_getD, List.getElem?_map]
+  cases a.data[i]? <;> simp
+
+/-- **C16 (sphere test in physical terms)**, positions with at least two components: `d` is the centred
+    position Vector (components in one unit of factor `f > 0`), `rad` the radius in its own unit. The test
+    the code evaluates — radius converted to the unit of the distances, squared distance below the squared
+    radius — keeps row `i` exactly when the *physical* distance is below the (positive) *physical* radius. -/
+theorem C16_sphere_row_phys (d : VecV) (x y : ArrV) (rest : List ArrV) (rad rad' : ArrV) (same : Bool) (f : Rat)
+    (hv : d.comps = x :: y :: rest) (hf : 0 < f) (hunits : ∀ c ∈ d.comps, c.unit.factor = f)
+    (hc : C02.Consistent rad.unit d.unit) (hs : rad.to d.unit = .ok (rad', same))
+    (i : Nat) (hlen : ∀ c ∈ d.comps, i < c.data.length) :
+    (decide (0 < getR rad'.data 0) && decide (getR d.normSq i < getR rad'.data 0 * getR rad'.data 0)) = true ↔
+      (0 < getR rad.phys 0 ∧
+        (d.comps.map fun c => getR c.phys i * getR c.phys i).sum < getR rad.phys 0 * getR rad.phys 0) := by
+  have hdu : d.unit.factor = f := by
+    unfold VecV.unit; rw [hv]; simp only [List.headD_cons]; exact hunits x (by rw [hv]; simp)
+  have hf0 : d.unit.factor ≠ 0 := by rw [hdu]; exact ne_of_gt hf
+  obtain ⟨_, hdata, _, _, _⟩ := C02.to_spec rad rad' d.unit same hc hf0 hs
+  have hR : getR rad'.data 0 * f = getR rad.phys 0 := by
+    rw [hdata, phys_get]
+    unfold getR U.ratio
+    simp only [List.getD_eq_getElem?_getD, List.getElem?_map]
+    rw [hdu]
+    cases rad.data[0]? with
+    | none => simp
+    | some v => simp; field_simp
+  have hsum : (d.comps.map fun c => getR c.phys i * getR c.phys i).sum = getR d.normSq i * (f * f) := by
+    rw [normSq_get d x (y :: rest) hv i hlen]
+    have : ∀ cs : List ArrV, (∀ c ∈ cs, c.unit.factor = f) →
+        (cs.map fun c => getR c.phys i * getR c.phys i).sum = (cs.map fun c => getR c.data i * getR c.data i).sum * (f * f) := by
+      intro cs
+      induction cs with
+      | nil => intro _; simp
+      | cons c cs ih =>
+        intro h
+        simp only [List.map_cons, List.sum_cons]
+        rw [ih (fun c' hc' => h c' (by simp [hc'])), phys_get, h c (by simp)]; ring
+    exact this d.comps hunits
+  rw [hsum, ← hR]
+  simp only [Bool.and_eq_true, decide_eq_true_eq]
+  have hff : 0 < f * f := mul_pos hf hf
+  constructor
+  · rintro ⟨h1, h2⟩
+    refine ⟨mul_pos h1 hf, ?_⟩
+    have := mul_lt_mul_of_pos_right h2 hff
+    nlinarith [this]
+  · rintro ⟨h1, h2⟩
+    refine ⟨?_, ?_⟩
+    · by_contra hc'
+      rw [not_lt] at hc'
+      have := mul_nonpos_of_nonpos_of_nonneg hc' (le_of_lt hf); linarith
+    · by_contra hc'
+      rw [not_lt] at hc'
+      have := mul_le_mul_of_nonneg_right hc' (le_of_lt hff)
+      nlinarith [this]
 
 end Osyris.C16
